@@ -23,6 +23,7 @@ def parseEv (s : String) : Option (Nat × Ev) :=
     | "https" => some (c, .req true)
     | "c80" => some (c, .connect)
     | "c443" => some (c, .connect)
+    | "drop" => some (c, .drop)
     | _ => none
   | _ => none
 
@@ -44,6 +45,7 @@ def showStep (k : Kind) (ws : List Write) : String :=
   | .tunnel => "T" ++ body
   | .invalid => "E" ++ body
   | .ignored => "I" ++ body
+  | .noop => "N" ++ body
 
 def runLine (old : Bool) (auth : Bool) (modes : List Mode) (evs : List (Nat × Ev)) : Option String := do
   let modeOf : Nat → Mode := fun c => modes.getD c .regular
@@ -63,6 +65,7 @@ def parseREv (s : String) : Option (Nat × REv) :=
   | [c, "req", h, p, t] => do
     let c ← c.toNat?; let h ← h.toNat?; let p ← p.toNat?
     if t ≠ "0" ∧ t ≠ "1" then none else pure (c, .req h p (t = "1"))
+  | [c, "drop"] => do let c ← c.toNat?; pure (c, .drop)
   | [c, "connect", h, p] => do
     let c ← c.toNat?; let h ← h.toNat?; let p ← p.toNat?
     pure (c, .connect h p)
@@ -85,6 +88,7 @@ def showROut (m : Mode) (o : ROut) : String :=
   | .tunnel => "T" ++ body
   | .invalid => "E" ++ body
   | .ignored => "I" ++ body
+  | .noop => "N" ++ body
 
 open MitmVerif.C24.Route in
 def routeLine (auth : Bool) (modes : List Mode) (evs : List (Nat × REv)) : Option String := do
